@@ -420,3 +420,37 @@ def build(chk: Check) -> None:
                F_MODEL, witness=sorted({l.rsplit("/", 1)[1] for l, _ in models}), lemma=True, replay=lambda m: {"reproduced": False})
     converter_checks(chk, models)
     real_roundtrips(chk, tier, models)
+    configuration_sweep(chk)
+
+
+def _sweep_one(cfg):
+    from vlib import models as M
+
+    M.quiet()
+    try:
+        model = M.build(cfg)
+    except Exception as e:  # noqa: BLE001
+        return {"skipped": f"{type(e).__name__}: {e}"[:200]}
+    return K.roundtrip_same(model)
+
+
+def configuration_sweep(chk: Check) -> None:
+    """Same-process pickle round trip of the model of EVERY zoo reaction x builder configuration of vlib/models.config_space
+    (both formalisms, alignments, stable ids, scalar mass, helicity couplings, dynamics; two-body to four-body): bounded."""
+    import concurrent.futures as cf
+    import multiprocessing as mp
+    import os
+
+    from vlib import models as M
+
+    cfgs = M.config_space(chk.tier)
+    with cf.ProcessPoolExecutor(max_workers=min(16, os.cpu_count() or 4), mp_context=mp.get_context("fork")) as pool:
+        results = list(pool.map(_sweep_one, cfgs, chunksize=4))
+    n = 0
+    for cfg, r in zip(cfgs, results):
+        if "skipped" in r:
+            continue
+        n += 1
+        chk.struct(f"pickle.same_process[config:{cfg.tag}]", not r["reproduced"], F_MODEL, witness=r, bounded=True,
+                   replay=lambda m, cfg=cfg: _sweep_one(cfg))
+    chk.extra["configuration_sweep_models"] = n
